@@ -377,7 +377,7 @@ func TestVerif_C01(t *testing.T) {
 				defer vfTreeRestore()
 				for _, e := range c.Exts {
 					if err := e.apply(); err != nil {
-						return vfResult{Skip: "extend-parent-missing"}
+						return vfApplyFailed(err)
 					}
 				}
 				var r vfResult
